@@ -17,6 +17,7 @@ import SpsdkVerif.Proofs.MbiRomCrc
 import SpsdkVerif.Proofs.MbiRomV1
 import SpsdkVerif.Proofs.MbiRomV21
 import SpsdkVerif.Proofs.MbiRomEnc
+import SpsdkVerif.Spec.Rotkh
 
 namespace SpsdkVerif.Properties.C02
 open SpsdkVerif SpsdkVerif.Mbi
@@ -57,6 +58,23 @@ theorem spec_consts_agree :
     ∧ Spec.MbiRom.crcParams.xorOut = IvtConsts.crcFinalXor ∧ Spec.MbiRom.crcParams.refIn = IvtConsts.crcReverse
     ∧ Spec.MbiRom.crcParams = Crypto.Crc.crc32Mpeg2 := by decide
 
+
+/-! ## the fused value: what the ROM model hashes is the documented root-of-trust hash (Spec/Rotkh.lean, property C03) -/
+
+/-- v1: the ROM model compares SHA-256 of the 4 x 32 byte RKH table found in the image with the fuses (`romCertV1`); when that
+    table is the documented table of the root keys, the compared value is `Spec.rotkh` -/
+theorem mbi_rkth_eq_spec_v1 (co : CryptoOps) (ks : List Spec.Key) :
+    co.hash .sha256 (Spec.rkhTableV1 co ks) = Spec.rotkh co .certBlock1 ks := by
+  simp [Spec.rotkh, Spec.rotkhCa, Spec.rotkhV1, List.map_map, Function.comp_def]
+
+/-- v2.1: the ROM model compares the hash of the single root key, or the hash (by key size) of the CTRK table found in the image,
+    with the fuses (`romCertV21`); when the table is the documented one this is `Spec.rotkh` -/
+theorem mbi_rkth_eq_spec_v21 (co : CryptoOps) (k : Spec.Key) (ks : List Spec.Key) :
+    (if (k :: ks).length = 1 then Spec.keyHash co k else co.hash k.hashAlg (Spec.ctrkTable co (k :: ks)))
+      = Spec.rotkh co .certBlock21 (k :: ks) := by
+  cases ks with
+  | nil => simp [Spec.rotkh, Spec.rotkhCa, Spec.rotkhV21]
+  | cons k' ks' => simp [Spec.rotkh, Spec.rotkhCa, Spec.rotkhV21, List.map_map, Function.comp_def]
 
 /-! ## class facts decided over the generated table -/
 
